@@ -394,6 +394,7 @@ func (s *seqState) applyBulkRefresh(op *Op, res *Result, loads []*loadRec) int {
 	var calls []expCall
 	want := map[int]RefreshView{}
 	free := map[int]bool{}
+	freeV := map[int]bool{}
 	phase := func(keys []int, reload bool) {
 		supplied, failed := s.bulkPhase(op, keys, reload)
 		for _, k := range keys {
@@ -402,6 +403,11 @@ func (s *seqState) applyBulkRefresh(op *Op, res *Result, loads []*loadRec) int {
 				want[k] = RefreshView{K: k, Err: plan.Kind}
 				if plan.Kind == "panic" {
 					free[k] = true
+				}
+				if plan.ErrMap {
+					// the loader handed back a map next to its error: whether the failed result
+					// carries that value or none is not specified, the error is
+					freeV[k] = true
 				}
 			default:
 				if v, ok := supplied[k]; ok {
@@ -446,7 +452,7 @@ func (s *seqState) applyBulkRefresh(op *Op, res *Result, loads []*loadRec) int {
 			}
 			continue
 		}
-		if free[g.K] || (g.V == w.V && g.Err == w.Err) {
+		if free[g.K] || ((g.V == w.V || freeV[g.K]) && g.Err == w.Err) {
 			matched[g.K] = true
 		}
 	}
